@@ -7,4 +7,4 @@ PKG=$1; FILE=$(readlink -f $2); RUN=${3:-.}; REPO=${4:-/repo}
 D=$(mktemp -d ${VERIF_SCRATCH:-/var/tmp}/replay.XXXXXX)
 trap 'rm -rf $D' EXIT
 printf '{"Replace": {"%s/%s/zz_replay_verif_test.go": "%s"}}\n' "$REPO" "$PKG" "$FILE" > $D/ov.json
-cd $REPO/$PKG && go test -overlay $D/ov.json -vet=off -count=1 -timeout 120s -run "$RUN" . 2>&1 | tail -30
+cd $REPO/$PKG && go test -overlay $D/ov.json -vet=off -count=1 -timeout 120s -v -run "$RUN" . 2>&1 | tail -30
